@@ -40,6 +40,12 @@ type write struct {
 	Async  bool `json:"async,omitempty"`  // an asynchronous BUFFER report precedes the CRCFAULT answer (known finding)
 	Flush  bool `json:"flush,omitempty"`  // check Flush / BUFFER 0 ordering after this write
 	Hold   int  `json:"hold_ms,omitempty"`
+	// Follower: before this write the application registers a follower of the TNC state through the public
+	// ListenEnabled().States() API that needs 3 s per update, and the TNC reports two state changes. The second one stays
+	// in the follower's hands, so the library gives up on that follower (its 500 ms rule) exactly while it hands out the
+	// NEXT control message - the BUFFER or CRCFAULT answer this write is waiting for. A slow third party costs that
+	// half second; it must not cost anybody else a message.
+	Follower bool `json:"follower,omitempty"`
 }
 
 type scenario struct {
@@ -102,7 +108,7 @@ var Check = &vrt.Check{
 		"Write of more than 65535 bytes is shortened by design: the returned n is the contract, the remainder is written again by the scenario",
 		"malformed PTT lines (no / non-boolean parameter) may cause SetPTT(false) calls; well-formed PTT TRUE/FALSE lines must reach the controller exactly, in order",
 		"a stall (no observable progress for 10 s, 3 s once the in-memory line is drained) is a violation only when the same scenario stalls at the same point in three attempts; otherwise inconclusive",
-		"a receiver eviction by the library's 500 ms broadcaster timeout (logged as 'Receiver timeout!') makes the scenario inconclusive",
+		"a receiver eviction by the library's 500 ms broadcaster timeout (logged as 'Receiver timeout!') makes the scenario inconclusive - except the one eviction per deliberately slow state follower (slow-state-follower scenarios), which is the scenario",
 	},
 	MaxWorkers:    8,
 	SelfTest:      simardop.SelfTest,
@@ -124,7 +130,7 @@ var regressClasses = []string{
 	"write-sizes-serial", "write-sizes-tcp", "crcfault-1", "crcfault-2", "crcfault-3", "crcfault-each", "buffer-before-crcfault",
 	"flush-order-serial", "flush-order-tcp", "ptt-order", "close-disconnect-serial", "close-disconnect-tcp",
 	"remote-disconnect", "cut-mid-frame-serial", "cut-mid-frame-tcp", "garbage-serial", "garbage-tcp",
-	"burst-stalled-reader", "listen-serial", "listen-tcp", "offline-start", "empty-frames", "dial-greeting", "close-undrained-serial", "close-undrained-tcp", "dial-apis", "backlog-serial", "backlog-tcp",
+	"burst-stalled-reader", "listen-serial", "listen-tcp", "offline-start", "empty-frames", "dial-greeting", "close-undrained-serial", "close-undrained-tcp", "dial-apis", "backlog-serial", "backlog-tcp", "slow-state-follower",
 }
 
 func plan(seed int64, tier string) []vrt.Case {
